@@ -336,6 +336,33 @@ func monC13(c *drv.Ctx) {
 		cs.C.Obs("large-container cases", 1)
 	})
 
+	// (2c) nesting 1..64 entered through every position: conversion agrees with what skip accepts
+	c.Stage("nesting-paths", int64(len(gen.NestPaths))*70, true, func(cs *drv.Case) {
+		depth := int(cs.Idx%70) + 1
+		path := gen.NestPaths[cs.Idx/70]
+		b, top := gen.NestedPath(path, depth, cs.Idx%3 == 0)
+		wire := append(ref.EncFieldBegin(nil, top, 11), b...)
+		cs.Desc = M{"path": path, "depth": depth, "wire_hex": hexOf(wire)}
+		got, err := uf.ConvertUnknownFields(place(wire, 0))
+		if depth >= 65 {
+			cs.C.DontCare("nesting>=65 (beyond the recursion limit)")
+			return
+		}
+		if err != nil {
+			cs.Fail("convert-error", M{"stage": "nesting"}, M{"depth": depth, "path": path, "err": errString(err), "message": "a well-formed field with at most 64 container levels was rejected"})
+			return
+		}
+		l, err := uf.UnknownFieldsLength(got)
+		out := make([]byte, len(wire))
+		n, err2 := uf.WriteUnknownFields(out, got)
+		if err != nil || err2 != nil || l != len(wire) || n != len(wire) || !bytes.Equal(out, wire) {
+			cs.Fail("write-bytes", M{"stage": "nesting"}, M{"depth": depth, "path": path, "length": l, "written": n, "want": len(wire)})
+			return
+		}
+		cs.Count(depth >= 2, "nest", path, depth)
+		cs.C.ObsMax("max_nesting_converted", int64(depth))
+	})
+
 	// (3) every container x element type combination with 0..3 elements (length arithmetic)
 	c.Stage("combo-grid", 11*11*4*3, true, func(cs *drv.Case) {
 		i := cs.Idx
